@@ -263,7 +263,6 @@ func VerifHarness_C14_O1() {
 	verifReach("end")
 }
 
-
 // C12/O3 — node-level flow: a refused fast-forward response must leave the
 // APPLICATION untouched as well.  Real Node.fastForward over a harness
 // transport answering with a response whose frame hash carries a symbolic XOR
@@ -285,7 +284,25 @@ func VerifHarness_C12_O3() {
 	}
 	tr.ff[members[1].NetAddr] = &net.FastForwardResponse{FromID: members[1].ID(), Block: *block, Frame: *frame, Snapshot: []byte("snapshot")}
 	before := vn.digest()
+	// restoring the application takes time: a push arriving meanwhile must still
+	// find the gate closed (the node is catching up until the application runs
+	// on the snapshot), otherwise blocks are committed on the un-restored state
+	pushServed := false
+	restoring := false
+	vn.proxy.onRestore = func() {
+		restoring = true
+		r := vn.rpc(&net.EagerSyncRequest{FromID: members[2].ID(), Events: []hg.WireEvent{}})
+		if r.Error == nil {
+			pushServed = true
+		}
+		if n.GetState() == state.Babbling {
+			pushServed = true
+		}
+	}
 	err := n.fastForward()
+	if restoring {
+		verifAssert("no-request-served-while-the-application-is-being-restored", !pushServed)
+	}
 	verifAssert("peers-were-asked", tr.ffCalls >= 1)
 	if err != nil {
 		verifAssert("refused-response-leaves-the-application-untouched", vn.proxy.restored == 0)
@@ -426,3 +443,8 @@ func VerifHarness_C14_O3() {
 }
 
 func VerifHarness_C12_O5() { VerifHarness_C14_O3() }
+
+// C13/O5 (= C17/O5) — the node-level fast-forward flow, for the clause "no
+// request is served between the hashgraph reset and the application restore".
+func VerifHarness_C13_O5() { VerifHarness_C12_O3() }
+func VerifHarness_C17_O5() { VerifHarness_C12_O3() }
